@@ -330,3 +330,48 @@ Proof.
   eexists k1, k2, hdr, uid, rnd, _, _.
   split; [discriminate|]. split; [exact Hk1|]. split; [exact Hk2|]. split; [exact E2|exact S1].
 Qed.
+
+(* ---- a shortened datagram ----
+   Authenticator.unpack reads nonce and ciphertext by the two inner length fields
+   and fills what the datagram does not hold with zeros (take_pad); DecodePacket
+   asks for 28 remaining bytes only.  What holds: whatever is accepted, EXTENDED
+   WITH ZEROS to the declared lengths, carries the seal of the bytes in front of
+   the authenticator. *)
+Theorem accept_zero_extended : forall seal open, aead_siv seal open ->
+  forall b key,
+  ((exists r, server_accept open b key = Ok r) \/ (exists id r, client_accept open b key id = Ok r)) ->
+  exists p pt, decode_packet b = Ok p /\ length (p_nonce p) = 16%nat /\
+    take_pad 16 (skipn (p_pos p + 8) b) = p_nonce p /\
+    take_pad (Z.to_nat (be16 b (p_pos p + 6))) (skipn (p_pos p + 24) b) =
+      seal key (p_nonce p) (Some (firstn (p_pos p) b)) pt.
+Proof.
+  intros seal open HS b key H.
+  destruct (accept_verifies seal open HS b key H) as [p [D [W [_ [Hn [pt E]]]]]].
+  destruct (wire_auth_16 b p W Hn) as [_ [A2 A3]].
+  exists p, pt. split; [exact D|]. split; [exact Hn|]. split; [symmetry; exact A2|].
+  rewrite <- A3. exact E.
+Qed.
+
+(* What does NOT hold: "only the datagram that was sealed is accepted".  With the
+   cipher ex3 (Open succeeds only on Seal's output) the request the project's
+   encoder produces ends in a zero byte of the tag; with that byte cut off the
+   datagram is one byte shorter and is still accepted by the server and, as a
+   response, by the client with its identifier; under another key it is refused. *)
+Theorem truncated_tag_refuted :
+  (forall k n ad p, ex3_open k n ad (ex3_seal k n ad p) = Some p) /\
+  (forall k n ad c p, ex3_open k n ad c = Some p -> c = ex3_seal k n ad p) /\
+  let key := repeat 7 32 in let rnd := repeat 9 16 in let uid := repeat 1 32 in
+  match enc_packet ex3_seal (repeat 0 48) uid [] [] key [] rnd with
+  | Ok b =>
+      let b' := firstn (length b - 1) b in
+      (length b' < length b)%nat /\ b' <> b /\
+      (exists r, server_accept ex3_open b' key = Ok r) /\
+      (exists r, client_accept ex3_open b' key uid = Ok r) /\
+      server_accept ex3_open b' (repeat 8 32) = Err ENotAuthentic
+  | _ => False
+  end.
+Proof.
+  split; [exact ex3_open_seal|]. split; [exact ex3_open_only_seal|].
+  vm_compute. split; [lia|]. split; [discriminate|]. split; [eexists; reflexivity|].
+  split; [eexists; reflexivity|reflexivity].
+Qed.
